@@ -96,8 +96,12 @@ class Interp:
         self.model_used = {}
         self.stack_keys = []
         self.inv_checks = {}
+        self.bool_vars = False       # materialise unknown booleans as 0/1 variables (decision-table extraction)
+        self.opaque = ()             # ADT paths materialised as uninterpreted terms with identity
+        self.pre_hooks = {}          # workspace callee key -> fn(interp, state, caller frame, args) before the call
         self.local_models = {}       # workspace callee key -> model (assume-guarantee summaries supplied by a rule)
         self.purefun = {}            # canonical result variable of a pure integer function -> its argument variables
+        self.snapshots = {}
         self.ret_hooks = {}          # workspace callee key -> fn(interp, state, caller frame, return value): rule-supplied ghosts
         self._cur = (0, 0, 0)
         self.loops = {}              # (body key, frame id, head bb) -> (head partitions, back-edge states) at the fixpoint
@@ -124,8 +128,12 @@ class Interp:
         r = int_range(t)
         if r is not None:
             if k == "bool":
+                if self.bool_vars:
+                    return self.fresh_num(st, 0, 1, hint)
                 return TOP
             return self.fresh_num(st, r[0], r[1], hint)
+        if k == "adt" and t.get("path") in self.opaque:
+            return Term("in", hint or self.fresh("o"))
         if depth > 5:
             return TOP
         if k == "ref" or k == "ptr":
@@ -205,6 +213,9 @@ class Interp:
             if isinstance(v, Seq):
                 # Box<[T]> is modelled by its length: its Unique/NonNull fields are the same fat pointer
                 return v
+            if isinstance(v, Ref):
+                # Box<T> modelled as a pointer to its heap cell: Unique / NonNull fields are that pointer
+                return v
             return TOP
         if p[0] == "v":
             if isinstance(v, Enum):
@@ -272,34 +283,65 @@ class Interp:
         return cur
 
     def input_element(self, st, fr, pl, sv, p):
-        """byte `i` (constant index) of an immutable input slice: one symbolic variable per (slice, index), so that
-        repeated reads agree and facts about it survive to the return states"""
+        """element `i` of an input sequence: one symbolic variable per (sequence, generation, index expression), so that
+        repeated reads agree and facts about it survive to the return states.  Element stores bump the generation."""
         if not isinstance(sv, Seq) or p["k"] == "subslice":
             return None
         if len(sv.len.t) != 1 or sv.len.c != 0:
             return None
         (lv, k_), = sv.len.t.items()
-        if k_ != 1 or not re.search(r"_a\d+(_|$).*_len$|_a\d+_len$", lv):
+        if k_ != 1 or not re.search(r"^t\d+_.*_len$", lv):
             return None
         bt = fr.body.local_ty(pl["l"])
-        if bt.get("k") != "ref" or bt.get("mut"):
-            return None
+        mutable_root = bt.get("k") == "ref" and bt.get("mut")
         if p["k"] == "cidx":
             if p.get("from_end"):
                 return None
-            idx = p["off"]
+            idx = "%d" % p["off"]
         else:
             iv = st.cells.get(self.cell_of(fr, p["l"]))
-            idx = st.sys.const_value(iv.e) if isinstance(iv, Num) else None
-            if idx is None:
+            if not isinstance(iv, Num):
                 return None
+            cv = st.sys.const_value(iv.e)
+            idx = "%d" % cv if cv is not None else "(%r)" % (st.sys.reduce(iv.e),)
+            if cv is None and not self.bool_vars:
+                return None      # symbolic indices only in the decision-table mode
         et = fr.body.ty(pl["ty"])
         r = int_range(et)
         if r is None:
             return None
-        name = "e%d@%s" % (int(idx), lv)
+        gen = st.cells.get("ghost:gen:" + lv)
+        g = int(gen.e.c) if isinstance(gen, Num) and gen.e.is_const() else 0
+        if bt.get("k") != "ref":
+            return None
+        if mutable_root and not self.bool_vars:
+            return None
+        name = ("e%s@%s" % (idx, lv)) if g == 0 and idx.isdigit() else ("e%s#%d@%s" % (idx, g, lv))
         e = Lin.var(name)
         st.sys.add_range(e, r[0], r[1])
+        if not idx.isdigit():
+            self.purefun[name] = {lv} | {v for v in (st.sys.reduce(iv.e).t if isinstance(iv, Num) else ())}
+        return Num(e)
+
+    def element_value(self, st, sv, ix, et):
+        """value of sv[ix] for a call-based index (Index::index): same naming as input_element; decision-table mode only"""
+        if not self.bool_vars or not isinstance(sv, Seq) or len(sv.len.t) != 1 or sv.len.c != 0:
+            return None
+        (lv, k_), = sv.len.t.items()
+        if k_ != 1 or not re.search(r"^t\d+_.*_len$", lv):
+            return None
+        r = int_range(et)
+        if r is None:
+            return None
+        cv = st.sys.const_value(ix)
+        idx = "%d" % cv if cv is not None else "(%r)" % (st.sys.reduce(ix),)
+        gen = st.cells.get("ghost:gen:" + lv)
+        g = int(gen.e.c) if isinstance(gen, Num) and gen.e.is_const() else 0
+        name = ("e%s@%s" % (idx, lv)) if g == 0 and idx.isdigit() else ("e%s#%d@%s" % (idx, g, lv))
+        e = Lin.var(name)
+        st.sys.add_range(e, r[0], r[1])
+        if not idx.isdigit():
+            self.purefun[name] = {lv} | set(st.sys.reduce(ix).t)
         return Num(e)
 
     def read_place(self, st, fr, pl):
@@ -381,6 +423,10 @@ class Interp:
                     self.record_write(st, sv, ix, ix + 1, "zero" if self.is_zero_value(st, val) else "data")
                 else:
                     self.record_write(st, sv, Lin.const(0), Lin.const(-1), "data")
+            if isinstance(sv, Seq) and len(sv.len.t) == 1:
+                lv_ = next(iter(sv.len.t))
+                gen = st.cells.get("ghost:gen:" + lv_)
+                st.cells["ghost:gen:" + lv_] = Num((gen.e if isinstance(gen, Num) else Lin.const(0)) + 1)
         loc = self.locate(st, fr, pl)
         if loc[0] == "cell":
             self.store(st, loc[1], loc[2], val)
@@ -448,12 +494,12 @@ class Interp:
                     return Ref(cell)
                 if to.get("k") == "array":
                     cell = "const:%s:%s" % (to.get("s"), v["mem"][:64])
-                    st.cells[cell] = Seq(Lin.const(to["len"]))
+                    st.cells[cell] = self.const_array(fr, to, v)
                     return Ref(cell)
                 if to.get("k") in ("slice", "str"):
                     return Seq(Lin.const(n))
             if t.get("k") == "array":
-                return Seq(Lin.const(t["len"]))
+                return self.const_array(fr, t, v)
             r = int_range(t)
             if r is not None and v["mem"]:
                 return Num(Lin.const(int.from_bytes(bytes.fromhex(v["mem"]), "little")))
@@ -462,6 +508,18 @@ class Interp:
                 return FnV(t.get("key") or t.get("path"))
             return Struct()
         return TOP
+
+    def const_array(self, fr, t, v):
+        """a constant array: small integer arrays keep their elements"""
+        n = t.get("len")
+        et = fr.body.ty(t["of"]) if "of" in t else {}
+        if isinstance(n, int) and 0 < n <= 32 and et.get("k") == "int" and v.get("mem") and not v.get("relocs"):
+            w = et["bits"] // 8
+            raw = bytes.fromhex(v["mem"])
+            if len(raw) == n * w:
+                vals = [int.from_bytes(raw[i * w:(i + 1) * w], "little", signed=bool(et.get("signed"))) for i in range(n)]
+                return Seq(Lin.const(n), None, Struct({i: Num(Lin.const(x)) for i, x in enumerate(vals)}, tag="elems"))
+        return Seq(Lin.const(n if isinstance(n, int) else 0)) if isinstance(n, int) else TOP
 
     # ------------------------------------------------------------------ numerics
     def as_num(self, st, v, t=None):
@@ -573,6 +631,19 @@ class Interp:
             if ca is not None and cb is not None:
                 return Num(Lin.const(int(ca) & int(cb)))
             for c_, other in ((ca, eb), (cb, ea)):
+                if c_ is not None and int(c_) > 0 and (int(c_) & (int(c_) + 1)) == 0 and int(c_) < rng[1]:
+                    # x & (2^k - 1) = x mod 2^k: the canonical remainder of x
+                    k2 = int(c_) + 1
+                    hx = hash_str("%r|%d" % (st.sys.reduce(other), k2)) & 0xffffffffffff
+                    rn, qn = "rm%x" % hx, "rq%x_ghostq" % hx
+                    r_, q_ = Lin.var(rn), Lin.var(qn)
+                    st.sys.add_range(r_, 0, k2 - 1)
+                    st.sys.add_ge(q_)
+                    st.sys.add_eq(other - q_.scale(k2) - r_)
+                    self.ghosts[qn] = (other, k2)
+                    self.purefun[rn] = set(other.t)
+                    return Num(r_)
+            for c_, other in ((ca, eb), (cb, ea)):
                 if c_ is not None:
                     inv = rng[1] ^ int(c_)            # the bits cleared by the mask
                     if inv >= 0 and (inv & (inv + 1)) == 0 and 0 < inv < rng[1]:
@@ -634,6 +705,8 @@ class Interp:
             return v
         if isinstance(v, Num) and v.e.is_const():
             return Cond("const", v.e.c != 0)
+        if isinstance(v, Num):
+            return Cond("cmp", "le", Lin.const(1), v.e)      # a 0/1 variable is true iff it is >= 1
         if v is TOP:
             return Cond("unknown")
         return None
@@ -744,6 +817,16 @@ class Interp:
         if k == "discr":
             d, val = c.a
             return self.refine_discr(st, d, val, truth)
+        if k == "ucmp":
+            # comparison of uninterpreted values: remember the decision taken on this path
+            pc = st.cells.get("ghost:pc")
+            if isinstance(pc, Trace):
+                for e in pc.ev:
+                    if e[0] == c.a and e[1] != truth:
+                        return False          # contradicts an earlier decision on the same comparison
+                if (c.a, truth) not in pc.ev:
+                    st.cells["ghost:pc"] = pc.add((c.a, truth))
+            return True
         return True
 
     def cond_known(self, st, c):
@@ -837,6 +920,15 @@ class Interp:
             if not nv.v:
                 return False
         self.store(st, d.cell, d.path, nv)
+        # entry snapshots of the same storage learn the variant too, while the field still holds the entry value
+        for g, src in self.snapshots.items():
+            if src == d.cell and g in st.cells:
+                try:
+                    gv = self.load(st, g, d.path)
+                except Exception:
+                    continue
+                if gv is v:
+                    self.store(st, g, d.path, nv)
         return True
 
     # ------------------------------------------------------------------ statements
@@ -945,6 +1037,8 @@ class Interp:
             if agg == "tuple":
                 return Struct({i: v for i, v in enumerate(ops)})
             if agg == "array":
+                if 0 < len(ops) <= 32 and all(isinstance(o, Num) and o.e.is_const() for o in ops):
+                    return Seq(Lin.const(len(ops)), None, Struct({i: o for i, o in enumerate(ops)}, tag="elems"))
                 return Seq(Lin.const(len(ops)))
             if agg == "closure":
                 return Struct({i: v for i, v in enumerate(ops)}, tag=rv.get("key") or rv["closure"])
@@ -1001,6 +1095,8 @@ class Interp:
         if kind == "Transmute":
             if isinstance(v, Seq) and tt.get("k") in ("ptr", "ref") and b.ty(tt["to"]).get("k") in ("slice", "str"):
                 return v
+            if isinstance(v, (Ref, RefAny)) and tt.get("k") in ("ptr", "ref"):
+                return v         # NonNull<T> -> *const U: the same address
             r = int_range(tt)
             if r is not None and isinstance(v, Num) and self.fits(st, v.e, tt):
                 return v
@@ -1065,6 +1161,8 @@ class Interp:
         for c, v in st.cells.items():
             if isinstance(v, (Enum, Struct, Cond)):
                 walk(c, v, 0)
+            elif isinstance(v, Trace):
+                items.append((c, repr(v)))
         return tuple(sorted(items))
 
     def join_values(self, a, b, sa, sb, phis, name):
@@ -1543,6 +1641,9 @@ class Interp:
 
     def call_local(self, st, fr, bb, key, args, term, frame_tag=None, part=0):
         callee = self.prog.bodies[key]
+        ph = self.pre_hooks.get(key) or self.pre_hooks.get(callee.defp)
+        if ph is not None:
+            ph(self, st, fr, args)
         if fr.depth + 1 > MAX_DEPTH:
             raise FailClosed("inlining depth exceeded at %s -> %s" % (fr.body.key, key))
         if key in fr.parent_keys or key == fr.body.key:
@@ -1674,6 +1775,13 @@ def hash_str(s):
     return h
 
 
+def event(st, *e):
+    """append an event to the path's trace (if the rule set one up)"""
+    t = st.cells.get("ghost:trace")
+    if isinstance(t, Trace):
+        st.cells["ghost:trace"] = t.add(tuple(e))
+
+
 def rename_value(v, f):
     if isinstance(v, Num):
         return Num(v.e.rename(f))
@@ -1689,6 +1797,10 @@ def rename_value(v, f):
                     rename_value(v.items, f) if isinstance(v.items, V) else v.items, tuple(rename_value(m, f) for m in v.maps))
     if isinstance(v, Cond):
         return Cond(v.k, *[x.rename(f) if isinstance(x, Lin) else (rename_value(x, f) if isinstance(x, V) else x) for x in v.a])
+    if isinstance(v, Term):
+        return Term(v.op, *[x.rename(f) if isinstance(x, Lin) else (rename_value(x, f) if isinstance(x, V) else x) for x in v.a])
+    if isinstance(v, Trace):
+        return Trace(tuple(tuple(x.rename(f) if isinstance(x, Lin) else (rename_value(x, f) if isinstance(x, V) else x) for x in e) for e in v.ev))
     return v
 
 
